@@ -38,8 +38,18 @@ THEOREMS = [
     "c02_traverse_scalar_stream_partial",
     "c02_next_value",
     "c02_traverse_stream_partial",
+    "c02b_traverse_stream_partial",
+    "c02b_includes_c02",
+    "c02b_includes_c02_trees",
+    "c02b_traverse_tree",
+    "c02b_next_value",
+    "c02b_read_operator_before_comment",
+    "c02b_next_eof_comment",
+    "c02b_version_marker",
+    "c02b_traverse_stream_ex",
     "c02_traverse_tree",
 ]
+EXTRA_MODULES = ["C02b"]
 LEVEL = "other"
 EXPLANATION = ("Value forests (lib/iongen.py, plus symbols without text) are rendered by an independent, spec-derived "
                "printer (lib/textgen.py) that picks a random legal spelling at every token: whitespace and both comment "
